@@ -38,6 +38,12 @@ class Journal(object):
     def onOneSecondTimer(self):
         pass
 
+    def setRaftTermAndVote(self, raftCurrentTerm, votedForNodeId):
+        pass
+
+    def getRaftTermAndVote(self):
+        return 0, None
+
 
 class MemoryJournal(Journal):
 
@@ -253,6 +259,17 @@ class FileJournal(Journal):
         if not self.__metaSaved:
             self.__metaStorer.storeMeta(self.__meta)
             self.__metaSaved = True
+
+    def setRaftTermAndVote(self, raftCurrentTerm, votedForNodeId):
+        self.__meta['raftCurrentTerm'] = raftCurrentTerm
+        self.__meta['votedForNodeId'] = votedForNodeId
+        # Stored at once: the term and the vote must survive a restart
+        # that happens right after the node has answered.
+        self.__metaStorer.storeMeta(self.__meta)
+        self.__metaSaved = True
+
+    def getRaftTermAndVote(self):
+        return self.__meta.get('raftCurrentTerm', 0), self.__meta.get('votedForNodeId', None)
 
 
 def createJournal(journalFile = None):
